@@ -384,7 +384,7 @@ class boolean(int, FieldType):
     value = None
 
     def __init__(self, value):
-        if value < 0 or value > 1:
+        if value != 0 and value != 1:
             raise ValueError("Value not a valid boolean value")
 
         self.value = bool(value)
